@@ -345,7 +345,7 @@ pub fn trace_motion(lb: &LineBuf, cmd: &ViCmd, mk: &MotionKind) {
 		"verb_count": cmd.verb.as_ref().map(|v| v.0),
 		"reg": json!([cmd.register.name().map(|c| c.to_string()), cmd.register.is_append()]),
 		"flags": cmd.flags.bits(),
-		"fresh": fresh_offsets(&lb.buffer),
+		"fresh": fresh_offsets(&lb.buffer), "cache": lb.grapheme_indices,
 		"excl": clamp_json(&format!("{:?}", lb.cursor))["exclusive"],
 		"sel_mode": lb.select_mode.as_ref().map(|m| format!("{m:?}")),
 		"buf": lb.buffer, "cur": clamp_json(&format!("{:?}", lb.cursor)),
